@@ -89,6 +89,7 @@ def run_property(pid, tier='quick', seed=0):
     known = [k for k in load_known() if k.get('property') == pid]
     problems, violations, known_hits = list(early_problems), [], []
     n_obl = n_ok = n_bounded = n_bounded_ok = 0
+    soft_undecided = []
     by_backend = {}
     samples = []
     fn_under_contract = []
@@ -152,11 +153,20 @@ def run_property(pid, tier='quick', seed=0):
             else:
                 violations.append((u, r, o))
         for und in r['undecided']:
-            if 'vf_canary' in und['desc']:
+            if 'vf_canary' in und['desc'] and not getattr(u, 'soft', False):
+                continue
+            if getattr(u, 'soft', False):
+                # a unit that strengthens a clause which a labelled scan of the same run also checks: an obligation the solvers leave
+                # undecided is reported and counted as NOT discharged, but does not by itself make the check undecided
+                if 'vf_canary' not in und['desc']:
+                    n_obl += 1
+                soft_undecided.append('%s: obligation %s (%s) not proved in this run (solver time-out)' % (u.id, und['name'], und['desc']))
                 continue
             problems.append('%s: undecided obligation %s (%s)' % (u.id, und['name'], und['desc']))
         if r['meta'] and not u.no_canary:
-            if not canary_seen:
+            if not canary_seen and getattr(u, 'soft', False) and any('vf_canary' in und['desc'] for und in r['undecided']):
+                pass        # satisfiability canary timed out in a soft unit: already listed under NOT-PROVED
+            elif not canary_seen:
                 problems.append('%s: canary obligation missing' % u.id)
             elif not canary_failed:
                 problems.append('%s: vacuity canary did not fire: precondition is contradictory or harness unreachable' % u.id)
@@ -241,6 +251,8 @@ def run_property(pid, tier='quick', seed=0):
     ex_obl = sum(e.get('obligations', 0) for e in extras)
     ex_ok = sum(e.get('discharged', 0) for e in extras)
     level = info['level']
+    if soft_undecided and level == 'proof':
+        level = 'other'      # this run did not discharge every obligation: what it decided rests partly on the labelled scan
     cov = {
         'obligations': n_obl + ex_obl,
         'discharged': n_ok + ex_ok,
@@ -252,7 +264,7 @@ def run_property(pid, tier='quick', seed=0):
         'samples': samples + [s for e in extras for s in e.get('samples', [])][:12],
         'extras': [{k: v for k, v in e.items() if k not in ('violations', 'samples')} for e in extras],
         'standins': [e.get('standin') for e in extras if e.get('standin')],
-        'not_decided': info.get('not_decided', []) + problems,
+        'not_decided': info.get('not_decided', []) + problems + soft_undecided,
         'skipped_in_quick': skipped,
         'extraction_dropped': all_dropped,
         'units': len(units),
@@ -281,6 +293,10 @@ def run_property(pid, tier='quick', seed=0):
         for p in problems:
             log('UNDECIDED: ' + p[:2000])
         return 2
+    for p in soft_undecided:
+        log('NOT-PROVED: ' + p[:600])
+    if soft_undecided:
+        print('%s: %d obligation(s) of the strengthening units were not proved in this run (solver time-out); the clause they strengthen is covered by the labelled scan of this run only -- see not_decided in the evidence' % (pid, len(soft_undecided)))
     print('%s: %d/%d obligations discharged in %d units (%.0fs)%s' % (
         pid, n_ok + ex_ok, n_obl + ex_obl, len(units), wall,
         ''.join('; ' + str(e.get('summary', '')) for e in extras if e.get('summary'))))
